@@ -51,11 +51,16 @@ func PanicSite(stderr string) (string, string) {
 
 // RunWorker re-executes this binary as "worker <args...>".
 func (c *Ctx) RunWorker(timeout time.Duration, args ...string) *WorkerResult {
+	return c.RunWorkerBin(c.Self, nil, timeout, args...)
+}
+
+// RunWorkerBin runs another build of this binary (e.g. the one with the race detector) as "worker <args...>".
+func (c *Ctx) RunWorkerBin(bin string, env []string, timeout time.Duration, args ...string) *WorkerResult {
 	ctx, cancel := context.WithTimeout(context.Background(), timeout)
 	defer cancel()
 
-	cmd := exec.CommandContext(ctx, c.Self, append([]string{"worker"}, args...)...)
-	cmd.Env = append(os.Environ(), "GOTRACEBACK=all")
+	cmd := exec.CommandContext(ctx, bin, append([]string{"worker"}, args...)...)
+	cmd.Env = append(append(os.Environ(), "GOTRACEBACK=all"), env...)
 
 	var stderr bytes.Buffer
 	cmd.Stderr = &stderr
